@@ -18,6 +18,7 @@ for i in sys.argv[1:]:
     if p.get('props_module'): t.add(p['props_module'])
     if p.get('driver_exe'): t.add(p['driver_exe'])
     for x in p.get('extra_lean_targets',[]): t.add(x)
+    for x in p.get('extra_props_modules',[]): t.add(x)
 print(' '.join(sorted(t)))
 PY
 )
